@@ -32,6 +32,15 @@ func (e *exec) do(op Op, v *view) bool {
 	switch op.K {
 	case "new":
 		var m *queue.Message
+		if op.Raw {
+			// ID 0, Ty 0, nil Data: what isEnd takes for the close sentinel
+			m = queue.NewMessage(0, topicName(op.T), 0, nil)
+			o := e.objOf(m)
+			e.slots[op.O] = m
+			v.status[op.O] = 1
+			e.emit(hlib.App("ONewRaw", n64(o), n64(op.T)), fmt.Sprintf("newraw slot%d -> obj%d", op.O, o))
+			return true
+		}
 		if op.Plain {
 			m = queue.NewMessage(nextPlainID(), topicName(op.T), 1, "req")
 		} else {
@@ -57,8 +66,8 @@ func (e *exec) do(op Op, v *view) bool {
 		e.emit(hlib.App("OFree", n64(e.objOf(m))), fmt.Sprintf("free slot%d", op.O))
 	case "sub":
 		e.cl[op.C].Sub(topicName(op.T))
-		if _, closing := e.closeCh[op.C]; e.subOf[op.C] < 0 && !closing && !v.clClose[op.C] {
-			e.subOf[op.C] = op.T // (Sub on a closing / closed client does nothing)
+		if _, closing := e.closeCh[op.C]; !closing && !v.clClose[op.C] {
+			e.subs[op.C] = append(e.subs[op.C], op.T) // (Sub on a closing / closed client does nothing)
 		}
 		e.emit(hlib.App("OSub", n64(op.C), n64(op.T)), fmt.Sprintf("sub c%d t%d", op.C, op.T))
 	case "send":
@@ -131,7 +140,6 @@ func (e *exec) do(op Op, v *view) bool {
 			} else {
 				o := e.objOf(m)
 				id := e.ids[m.ID]
-				e.taken[e.subOf[op.C]]++
 				v.recvd = append(v.recvd, rcv{c: op.C, obj: o, id: id, realID: m.ID, msg: m})
 				out = "(Some (Some " + hlib.Pair(n64(o), n64(id)) + "))"
 				hum = fmt.Sprintf("obj%d id%d", o, id)
@@ -251,16 +259,17 @@ func (e *exec) do(op Op, v *view) bool {
 		}
 		e.emit(hlib.App("OWait", n64(op.C), n64(e.objOf(m)), hlib.Bool(op.Timed), out), fmt.Sprintf("wait c%d slot%d timed=%v -> %s", op.C, op.O, op.Timed, hum))
 	case "close":
-		if _, busy := e.closeCh[op.C]; busy {
+		_, busy := e.closeCh[op.C]
+		if busy && !op.Over {
 			return false
 		}
 		ch := make(chan bool, 1)
 		cl := e.cl[op.C]
-		pan := make(chan struct{}, 1)
+		pan := make(chan string, 1)
 		go func() {
 			defer func() {
 				if x := recover(); x != nil {
-					pan <- struct{}{}
+					pan <- fmt.Sprint(x)
 				}
 			}()
 			cl.Close()
@@ -269,27 +278,104 @@ func (e *exec) do(op Op, v *view) bool {
 		ret := true
 		e.settle()
 		select {
-		case <-pan:
+		case what := <-pan:
+			if busy && what == "close of closed channel" {
+				// the overlapping Close crashed in close(client.done); recovered here, the scenario goes on
+				e.emit(hlib.App("OClosePanic", n64(op.C)), fmt.Sprintf("close c%d (overlapping) -> PANIC %s", op.C, what))
+				return true
+			}
 			e.panicked(3)
 			return true
 		case <-ch:
 			v.clClose[op.C] = true
 		default:
 			ret = false
-			e.closeCh[op.C] = ch
-		}
-		if e.subOf[op.C] >= 0 {
-			e.tClosed[e.subOf[op.C]] = true
+			if busy {
+				// a second Close that neither returned nor crashed: the scripted format has no word for it
+				e.dead = true
+				e.noteLeak()
+			} else {
+				e.closeCh[op.C] = ch
+			}
 		}
 		e.emit(hlib.App("OClose", n64(op.C), hlib.Bool(ret)), fmt.Sprintf("close c%d -> ret=%v", op.C, ret))
 	case "closeq":
 		e.q.Close()
 		e.closed = true
-		for t := 0; t < e.sc.NTopics; t++ {
-			e.tClosed[t] = true
-		}
 		v.qClose = true
 		e.emit("OCloseQ", "queue.Close")
+	case "raceq":
+		// Queue.Close in one goroutine; as soon as it is inside its locked loop over the topics
+		// (made long by the helper topics) this goroutine sends slot O. The outcome is written as
+		// the interleaving of [Queue.Close called] / [send] / [Queue.Close returned] that explains it.
+		if op.N > 0 {
+			return e.raceMany(op, v)
+		}
+		m := e.slots[op.O]
+		if m == nil {
+			return false
+		}
+		done := make(chan struct{})
+		q := e.q
+		go func() {
+			defer func() { _ = recover() }()
+			q.Close()
+			close(done)
+		}()
+		t0 := time.Now()
+		for !stackHas("(*queue).Close.func1") && time.Since(t0) < 2*time.Second {
+		}
+		sch := make(chan sendRes, 1)
+		cl := e.cl[op.C]
+		go func() {
+			defer func() {
+				if r := recover(); r != nil {
+					sch <- sendRes{panicked: true}
+				}
+			}()
+			sch <- sendRes{err: cl.SendTimeout(m, op.Hi, -1)}
+		}()
+		select {
+		case <-done:
+		case <-time.After(settleLimit):
+			e.dead = true
+			e.noteLeak()
+			return false
+		}
+		e.closed = true
+		v.qClose = true
+		r, returned := awaitCall(e, sch, false)
+		_, _, tclosed := queue.VerifLens(e.q, m.Topic)
+		e.np++
+		p := e.np
+		noObs := hlib.App("mkObs", hlib.List(nil), hlib.List(nil), hlib.List(nil))
+		sendTerm := func(out string) string {
+			return hlib.App("OSend", n64(p), n64(op.C), n64(e.objOf(m)), hlib.Bool(op.Hi), modeTerm(-1), out)
+		}
+		switch {
+		case returned && r.err == nil && !r.panicked && !tclosed:
+			// the send read isClose = 0, reached chanSub after the loop and created the topic
+			e.impl = append(e.impl, "queue.Close called", fmt.Sprintf("send#%d c%d slot%d (inside Close) -> SOk, topic open", p, op.C, op.O))
+			e.terms = append(e.terms, hlib.Pair("OCloseQB", noObs), hlib.Pair(sendTerm("(Some SOk)"), noObs))
+			v.status[op.O] = 2
+			e.nontriv = true
+			e.emit("OCloseQE", "queue.Close returned")
+		case returned && r.err == nil && !r.panicked && tclosed:
+			// the send came first: the topic existed when the loop ran
+			e.impl = append(e.impl, fmt.Sprintf("send#%d c%d slot%d (before Close) -> SOk", p, op.C, op.O))
+			e.terms = append(e.terms, hlib.Pair(sendTerm("(Some SOk)"), noObs))
+			v.status[op.O] = 2
+			e.emit("OCloseQ", "queue.Close")
+		case returned && !r.panicked && !tclosed:
+			// the send came last
+			e.impl = append(e.impl, "queue.Close")
+			e.terms = append(e.terms, hlib.Pair("OCloseQ", noObs))
+			e.emit(sendTerm("(Some "+sresTerm(r)+")"), fmt.Sprintf("send#%d c%d slot%d (after Close) -> %s", p, op.C, op.O, sresTerm(r)))
+		default:
+			// e.g. the topic was created before the loop and the send then saw done closed
+			e.retry = true
+			e.dead = true
+		}
 	default:
 		return false
 	}
@@ -318,9 +404,11 @@ func (e *exec) topicOf(m *queue.Message) int {
 }
 
 func (e *exec) hasSub(t int) bool {
-	for _, x := range e.subOf {
-		if x == t {
-			return true
+	for _, l := range e.subs {
+		for _, x := range l {
+			if x == t {
+				return true
+			}
 		}
 	}
 	return false
